@@ -14,7 +14,7 @@ RULE = ("one case = one delivery to a receiver context, judged against the abstr
 ASSUMPTIONS = ["a delivery that is not byte-identical to the sealed message at the receiver's position must be rejected (AEAD forgery probability 2^-128 is ignored)",
                "sequence positions near 2^64 are reached with the cfg(hpke_verif) set_seq hook on both sides"]
 M64 = (1 << 64) - 1
-KINDS = ["next", "next", "next", "replay", "future", "flip_ct", "flip_tag", "flip_aad", "wrong_aad", "trunc_short",
+KINDS = ["next", "next", "next", "alias", "replay", "future", "flip_ct", "flip_tag", "flip_aad", "wrong_aad", "trunc_short",
          "trunc", "extend", "empty", "garbage", "mix_tag", "skip_first"]
 
 
@@ -67,6 +67,23 @@ def build(env, nhist, maxsteps, starts):
             if kind == "next":
                 if nopened < len(sealed):
                     nopened += 1
+            elif kind == "alias":
+                # a message sealed at position p delivered to a receiver moved to p + 2^(8j): a counter that is
+                # only partly mixed into the nonce would accept it.  The receiver is moved back afterwards.
+                if start >= (1 << 56) or start + len(sealed) + 2 >= (1 << 56):
+                    continue
+                i = rnd.randrange(0, len(sealed))
+                pos = start + i + (1 << (8 * rnd.randrange(1, 8))) * rnd.choice([1, 1, 3])
+                if pos >= M64:
+                    continue
+                a = sealed[i]
+                s.call("set_seq", ctx="R", seq=pos)
+                if rnd.random() < 0.5:
+                    s.call("open", ctx="R", api="alloc", ct="$%s.full" % a, aad=aads[a], kind="alias")
+                else:
+                    s.call("open", ctx="R", api="inplace", ct="$%s.ct" % a, tag="$%s.tag" % a, aad=aads[a], kind="alias")
+                s.call("set_seq", ctx="R", seq=start + nopened)
+                continue
             elif kind == "replay":
                 if cur == 0:
                     continue
@@ -251,7 +268,40 @@ def monitor(sess, extra):
     return r
 
 
-MONITORS = {"histories": monitor}
+def build_longrun(env, nfail, aeads):
+    """One receiver context takes a very long run of rejected deliveries (a failure counter with a
+    16-bit budget would overflow), then must still accept the genuine next messages."""
+    g = gen.G(env.rnd)
+    rnd = env.rnd
+    cw = cl.CaseW()
+    for aead in aeads:
+        s = cw.session(0x0020, rnd.choice(gen.KDFS), aead, sid="L%d" % aead)
+        gen.add_pair(s, g, 0x0020, 0)
+        aads = {}
+        for i in range(4):
+            aads["m%d" % i] = g.rbytes(3)
+            s.call("seal", ctx="S", api="alloc", pt=g.rbytes(20), aad=aads["m%d" % i], out="m%d" % i)
+        s.call("open", ctx="R", api="alloc", ct="$m0.full", aad=aads["m0"], kind="next")
+        for k in range(nfail):
+            c = k % 5
+            if c == 0:
+                s.call("open", ctx="R", api="alloc", ct="$m1.full^flip:%d" % (k % 288), aad=aads["m1"], kind="flip_ct")
+            elif c == 1:
+                s.call("open", ctx="R", api="inplace", ct="$m1.ct", tag="$m1.tag^flip:%d" % (k % 128), aad=aads["m1"], kind="flip_tag")
+            elif c == 2:
+                s.call("open", ctx="R", api="alloc", ct="$m0.full", aad=aads["m0"], kind="replay")
+            elif c == 3:
+                s.call("open", ctx="R", api="alloc", ct="$m1.full", aad="ff", kind="wrong_aad")
+            else:
+                s.call("open", ctx="R", api="inplace", ct="$m2.ct", tag="$m2.tag", aad=aads["m2"], kind="future")
+        for i in (1, 2, 3):
+            s.call("open", ctx="R", api="alloc" if i & 1 else "inplace", ct="$m%d.full" % i if i & 1 else "$m%d.ct" % i,
+                   tag=None if i & 1 else "$m%d.tag" % i, aad=aads["m%d" % i], kind="next")
+        s.call("state", ctx="R")
+    return cw
+
+
+MONITORS = {"histories": monitor, "longrun": monitor}
 
 
 def run(env):
@@ -262,6 +312,11 @@ def run(env):
     env.require_complete(res, "histories")
     mr = env.pmap(monitor, res.sessions, workload="histories")
     env.extra_cov["histories"] = mr.counts["histories"]
+    aeads = [gen.SEAL_AEADS[env.seed % 3]] if env.quick() else gen.SEAL_AEADS
+    res2 = env.drive("longrun", build_longrun(env, env.pick(66000, 140000), aeads).text())
+    env.require_complete(res2, "longrun")
+    env.pmap(monitor, res2.sessions, workload="longrun")
+    env.extra_cov["longest_run_of_rejected_deliveries"] = env.pick(66000, 140000)
     if mr.counts["verdict:accept"] < 100 or mr.counts["verdict:reject"] < 100 or mr.counts["verdict:limit"] < 20:
         if not env.violations:
             raise fw.Inconclusive("workload too thin: %s" % {k: v for k, v in mr.counts.items() if k.startswith("verdict")})
